@@ -53,6 +53,7 @@ type HarnessCfg struct {
 	Bounds    string   `json:"bounds"`
 	Models    []string `json:"models"`
 	AllowPanics bool   `json:"allow_panics"`
+	Race      bool     `json:"race"` // native replay under the Go race detector
 }
 
 type PropCfg struct {
@@ -103,7 +104,7 @@ func pkgDir(pkg string) string {
 }
 
 // nativeReplay runs the given items through `go test -overlay` in one package.
-func nativeReplay(hroot, pkg, pkgName string, harnessNames []string, items []replayItem, scratch string) ([]replayOut, string, error) {
+func nativeReplay(hroot, pkg, pkgName string, harnessNames []string, items []replayItem, scratch string, race ...bool) ([]replayOut, string, error) {
 	ov, err := buildOverlay(hroot)
 	if err != nil {
 		return nil, "", err
@@ -147,13 +148,27 @@ func nativeReplay(hroot, pkg, pkgName string, harnessNames []string, items []rep
 	itemsJSON, _ := json.MarshalIndent(items, "", " ")
 	vecPath := filepath.Join(scratch, "vectors.json")
 	os.WriteFile(vecPath, itemsJSON, 0o644)
-	runsh := fmt.Sprintf("#!/bin/sh\n# replays the recorded vectors natively against /repo's current tree\ncd %s && GOFLAGS=-mod=mod GOPROXY=off GOSUMDB=off GOTOOLCHAIN=local ZZVERIF_VECTORS=%s go test -vet=off -count=1 -run 'TestZZReplay$' -overlay %s %s\n",
-		repoDir, vecPath, ovPath, pkg)
+	raceFlag, raceEnv := "", ""
+	withRace := len(race) > 0 && race[0]
+	if withRace {
+		raceFlag = "-race "
+		raceEnv = fmt.Sprintf("CGO_ENABLED=1 GORACE='log_path=%s halt_on_error=0' ZZVERIF_RACELOG=%s ", filepath.Join(scratch, "racelog"), filepath.Join(scratch, "racelog"))
+	}
+	runsh := fmt.Sprintf("#!/bin/sh\n# replays the recorded vectors natively against /repo's current tree\ncd %s && GOFLAGS=-mod=mod GOPROXY=off GOSUMDB=off GOTOOLCHAIN=local %sZZVERIF_VECTORS=%s go test %s-vet=off -count=1 -v -run 'TestZZReplay$' -overlay %s %s\n",
+		repoDir, raceEnv, vecPath, raceFlag, ovPath, pkg)
 	os.WriteFile(filepath.Join(scratch, "run.sh"), []byte(runsh), 0o755)
 
-	cmd := exec.Command("go", "test", "-vet=off", "-count=1", "-v", "-run", "TestZZReplay$", "-timeout", "20m", "-overlay", ovPath, pkg)
+	targs := []string{"test"}
+	if withRace {
+		targs = append(targs, "-race")
+	}
+	targs = append(targs, "-vet=off", "-count=1", "-v", "-run", "TestZZReplay$", "-timeout", "20m", "-overlay", ovPath, pkg)
+	cmd := exec.Command("go", targs...)
 	cmd.Dir = repoDir
 	cmd.Env = append(os.Environ(), "GOFLAGS=-mod=mod", "GOPROXY=off", "GOSUMDB=off", "GOTOOLCHAIN=local", "ZZVERIF_VECTORS="+vecPath)
+	if withRace {
+		cmd.Env = append(cmd.Env, "CGO_ENABLED=1", "GORACE=log_path="+filepath.Join(scratch, "racelog")+" halt_on_error=0", "ZZVERIF_RACELOG="+filepath.Join(scratch, "racelog"))
+	}
 	var outb bytes.Buffer
 	cmd.Stdout = &outb
 	cmd.Stderr = &outb
@@ -506,16 +521,21 @@ func cmdCheck(args []string) int {
 		names   []string
 		items   []replayItem
 		back    [][2]int // (pend index, item index)
+		race    bool
 	}
 	batches := map[string]*pkgBatch{}
 	for pi, pr := range pend {
 		if len(pr.items) == 0 || pr.h.Replay == "none" || *noReplay {
 			continue
 		}
-		b := batches[pr.h.Pkg]
+		bkey := pr.h.Pkg
+		if pr.h.Race {
+			bkey += " -race"
+		}
+		b := batches[bkey]
 		if b == nil {
-			b = &pkgBatch{pkg: pr.h.Pkg, pkgName: pr.fn.Pkg.Pkg.Name()}
-			batches[pr.h.Pkg] = b
+			b = &pkgBatch{pkg: pr.h.Pkg, pkgName: pr.fn.Pkg.Pkg.Name(), race: pr.h.Race}
+			batches[bkey] = b
 		}
 		b.names = append(b.names, pr.h.Name)
 		for ii, it := range pr.items {
@@ -537,7 +557,7 @@ func cmdCheck(args []string) int {
 		bi++
 		go func(b *pkgBatch, bi int) {
 			defer wg.Done()
-			outs, raw, err := nativeReplay(*hroot, b.pkg, b.pkgName, b.names, b.items, filepath.Join(scratchRoot, fmt.Sprintf("replay%d", bi)))
+			outs, raw, err := nativeReplay(*hroot, b.pkg, b.pkgName, b.names, b.items, filepath.Join(scratchRoot, fmt.Sprintf("replay%d", bi)), b.race)
 			rmu.Lock()
 			defer rmu.Unlock()
 			rawOut[b.pkg] = raw
@@ -571,6 +591,21 @@ func cmdCheck(args []string) int {
 			}
 			continue
 		}
+		// concurrent harnesses: the native scheduler is not under control, so a schedule found by
+		// the engine reproduces in some stress run of the harness, not necessarily in the run of
+		// the same vector
+		raceFail, engineViol := "", false
+		if pr.h.Race {
+			for ii, kind := range pr.kinds {
+				if kind == "violation" {
+					engineViol = true
+				}
+				if o, have := results[[2]int{pi, ii}]; have && raceFail == "" &&
+					(strings.HasPrefix(o.Result, "assert-fail:") || strings.HasPrefix(o.Result, "panic:")) {
+					raceFail = o.Result
+				}
+			}
+		}
 		for ii, kind := range pr.kinds {
 			o, have := results[[2]int{pi, ii}]
 			if !have || o.Result == "" {
@@ -588,6 +623,9 @@ func cmdCheck(args []string) int {
 			switch {
 			case kind == "witness":
 				w := pr.wits[ii]
+				if o.Result != "completed" && pr.h.Race && engineViol {
+					continue // the native stress run hit the schedule the engine reports as a violation
+				}
 				if o.Result != "completed" {
 					inconclusive = append(inconclusive, fmt.Sprintf("%s: encoder validation: engine path completed but native run gave %q (vector %v)", pr.h.Name, o.Result, w.Vector))
 					continue
@@ -615,6 +653,10 @@ func cmdCheck(args []string) int {
 					// counterpart; the defect counts as reproduced when the same vector makes a
 					// harness assertion fail or the real code panic natively
 					confirmed = true
+				}
+				if !confirmed && pr.h.Race && raceFail != "" && kind == "violation" {
+					confirmed = true
+					o.Result = raceFail + " (in another stress run of this harness)"
 				}
 				if strings.HasPrefix(kind, "probe:") {
 					id := strings.TrimPrefix(kind, "probe:")
@@ -682,7 +724,11 @@ func saveReplay(evdir, pid string, n *int, h *HarnessCfg, it replayItem, v *Viol
 	os.WriteFile(filepath.Join(dir, "violation.json"), data, 0o644)
 	items, _ := json.MarshalIndent([]replayItem{it}, "", " ")
 	os.WriteFile(filepath.Join(dir, "vectors.json"), items, 0o644)
-	sh := fmt.Sprintf("#!/bin/sh\n# replays this counterexample natively against /repo's current tree\nexec %s/bin/gosmt replay --pkg %s --harness %s --vectors %s/vectors.json\n", verifDir, h.Pkg, h.Name, dir)
+	raceOpt := ""
+	if h.Race {
+		raceOpt = " --race"
+	}
+	sh := fmt.Sprintf("#!/bin/sh\n# replays this counterexample natively against /repo's current tree\nexec %s/bin/gosmt replay --pkg %s --harness %s --vectors %s/vectors.json%s\n", verifDir, h.Pkg, h.Name, dir, raceOpt)
 	os.WriteFile(filepath.Join(dir, "run.sh"), []byte(sh), 0o755)
 	return dir
 }
@@ -760,6 +806,7 @@ func cmdReplay(args []string) int {
 	harness := fs.String("harness", "", "harness")
 	vectors := fs.String("vectors", "", "vectors.json")
 	hroot := fs.String("harness-root", filepath.Join(verifDir, "harness"), "harness root")
+	race := fs.Bool("race", false, "run under the Go race detector")
 	fs.Parse(args)
 	data, err := os.ReadFile(*vectors)
 	if err != nil {
@@ -785,7 +832,7 @@ func cmdReplay(args []string) int {
 	}
 	scratch, _ := os.MkdirTemp("", "gosmt-replay-")
 	defer os.RemoveAll(scratch)
-	outs, raw, err := nativeReplay(*hroot, *pkg, pkgName, []string{*harness}, items, scratch)
+	outs, raw, err := nativeReplay(*hroot, *pkg, pkgName, []string{*harness}, items, scratch, *race)
 	if err != nil {
 		fmt.Println(err)
 		return 2
